@@ -137,11 +137,12 @@ theorem collectCross_to (rd : RegionData) (L n : Int) :
       | none => exact ⟨w, by simpa [collectCross] using hw, hwg⟩
       | some g0 => exact ⟨w, by simp [collectCross, hw], hwg⟩
 
-/-- a two-part origin-spanning feature inside a region over the origin is written -/
-theorem written_contains_cross (rd : RegionData) (rec : BioRecord) (w : Written) (h : writeToGenbank rd rec = .ok w)
+/-- an origin-spanning feature that the gathering loop keeps is written -/
+theorem written_contains_kept (rd : RegionData) (rec : BioRecord) (w : Written) (h : writeToGenbank rd rec = .ok w)
     (hc : rd.crossesOrigin = true) (he0 : 0 < rd.end) (hsL : rd.start < rec.length)
-    (f : BioFeature) (hf : f ∈ rec.features) (hb : bridgesOrigin f.loc = true) (htwo : twoPart rec.length f.loc = true)
-    (hin : insideRegion rec.length rd f.loc = true) :
+    (f : BioFeature) (hf : f ∈ rec.features)
+    (hkeep : ∀ n, n = rec.length - rd.start + rd.end →
+      ∃ p g, crossStep rd rec.length n f = .ok (p, some g) ∧ g.tag = f.tag) :
     ∃ g ∈ w.extract.features, g.tag = f.tag := by
   have hes : rd.end ≤ rd.start := by simpa [RegionData.crossesOrigin] using hc
   have hL : 0 < rec.length := by omega
@@ -169,7 +170,7 @@ theorem written_contains_cross (rd : RegionData) (rec : BioRecord) (w : Written)
           · rename_i steps hs
             injection hg with hg; injection hg with hg1 hg2
             subst hg2
-            obtain ⟨p, g, hstep, hgt⟩ := crossStep_keeps rd rec.length _ f hL he0 hes hsL (cross_len rd rec he0 hes hsL) hb htwo hin
+            obtain ⟨p, g, hstep, hgt⟩ := hkeep _ (cross_len rd rec he0 hes hsL)
             obtain ⟨w0, hw0, hwg⟩ := collectCross_to rd _ _ rec.features steps 0 f p g hs hf hstep
             exact ⟨w0, List.mem_append.2 (.inl (List.mem_append.2 (.inr hw0))), by rw [hwg, hgt]⟩
   obtain ⟨w0, hw0, ht⟩ := hbase2
@@ -182,6 +183,16 @@ theorem written_contains_cross (rd : RegionData) (rec : BioRecord) (w : Written)
     refine ⟨g, ?_, ?_⟩
     · rw [hfe]; exact List.mem_map.2 ⟨w1, hw1, by rw [← hstep]⟩
     · rw [(adjustFeature_same rd _ _ w0.f g hg).1, ht]
+
+/-- a two-part origin-spanning feature inside a region over the origin is written -/
+theorem written_contains_cross (rd : RegionData) (rec : BioRecord) (w : Written) (h : writeToGenbank rd rec = .ok w)
+    (hc : rd.crossesOrigin = true) (he0 : 0 < rd.end) (hsL : rd.start < rec.length)
+    (f : BioFeature) (hf : f ∈ rec.features) (hb : bridgesOrigin f.loc = true) (htwo : twoPart rec.length f.loc = true)
+    (hin : insideRegion rec.length rd f.loc = true) :
+    ∃ g ∈ w.extract.features, g.tag = f.tag := by
+  have hes : rd.end ≤ rd.start := by simpa [RegionData.crossesOrigin] using hc
+  exact written_contains_kept rd rec w h hc he0 hsL f hf
+    (fun n hn => crossStep_keeps rd rec.length n f (by omega) he0 hes hsL hn hb htwo hin)
 
 theorem start_ge_of_parts (l : Loc) (a : Int) (hne : l.parts ≠ []) (h : ∀ p ∈ l.parts, a ≤ p.lo) : a ≤ l.start := by
   cases l with
